@@ -130,6 +130,9 @@ func runReentCell(i int, c reCell, tw *vh.TraceWriter, res *vh.Result) {
 	done := make(chan struct{})
 	go func() { wg.Wait(); close(done) }()
 	q := s.finish(done)
+	if q {
+		s.settle()
+	}
 	s.em.ev("EndScenario", "quiescent", q)
 	s.em.close()
 	res.Executed++
